@@ -1161,6 +1161,7 @@ fn run_mode(args: &Args, mode: Mode, name: &str, property: &str, depth: (usize, 
     explore(mode, name, property, d, args.thorough(), &mut part);
     if mode == Mode::Violations {
         huge_sizes(&mut part);
+        nested_tables(&mut part);
     }
     if mode == Mode::Content || mode == Mode::Listeners {
         flood(mode, &mut part);
@@ -1270,6 +1271,81 @@ fn huge_sizes(part: &mut Part) {
         }
     }
     part.extra.insert("huge_body_sizes".into(), json!(sizes.iter().map(|s| s.to_string()).collect::<Vec<_>>()));
+}
+
+/// A content header whose `headers` table is nested `depth` levels deep - a syntactically valid
+/// frame of 35 + 7 * depth bytes - through the real frame buffer (parse included), on a thread
+/// with the stack the I/O thread has (a spawned thread's default), in a child process: whatever
+/// the client makes of it, the process must survive.
+fn nested_tables(part: &mut Part) {
+    let exe = std::env::current_exe().unwrap();
+    let depths: Vec<usize> = vec![8, 64, 600, 5000, 18000];
+    let results = vh::par::par_map(depths.len(), |i| {
+        let out = std::process::Command::new(&exe).arg("dispatch-nested-child").arg(depths[i].to_string()).output();
+        match out {
+            Ok(o) => (o.status.code(), String::from_utf8_lossy(&o.stdout).to_string(), format!("{:?}", o.status)),
+            Err(e) => (None, e.to_string(), String::new()),
+        }
+    });
+    let mut died: Vec<String> = Vec::new();
+    for (i, (code, text, status)) in results.into_iter().enumerate() {
+        part.evaluations += 1;
+        part.distinct_nontrivial += 1;
+        part.transitions += 1;
+        if code != Some(0) || !text.contains("OK") {
+            died.push(format!("depth {} ({} bytes): {}", depths[i], 35 + 7 * depths[i], status));
+        }
+    }
+    if !died.is_empty() {
+        part.violation(
+            "violations:nested-table-abort",
+            format!("a content header whose headers table is nested deeply ends the process (stack overflow in the frame parser on the I/O thread's stack): {}", died.join("; ")),
+            json!({"engine":"seqx","check":"dispatch","mode":"nested","depths":depths}),
+        );
+    }
+    part.extra.insert("nested_table_depths".into(), json!(depths));
+}
+
+pub fn nested_child(depth: &str) {
+    let depth: usize = depth.parse().unwrap();
+    // innermost table is empty; each level wraps it as {"k": <table>}
+    let mut content: Vec<u8> = Vec::new();
+    for _ in 0..depth {
+        let mut outer = vec![1u8, b'k', b'F'];
+        outer.extend_from_slice(&(content.len() as u32).to_be_bytes());
+        outer.extend_from_slice(&content);
+        content = outer;
+    }
+    let mut payload: Vec<u8> = vec![0, 60, 0, 0, 0, 0, 0, 0, 0, 0, 0, 0, 0x20, 0x00];
+    payload.extend_from_slice(&(content.len() as u32).to_be_bytes());
+    payload.extend_from_slice(&content);
+    let mut bytes = vec![2u8, 0, 1];
+    bytes.extend_from_slice(&(payload.len() as u32).to_be_bytes());
+    bytes.extend_from_slice(&payload);
+    bytes.push(0xCE);
+    let h = std::thread::Builder::new()
+        .name("like-amiquip-io".into())
+        .spawn(move || {
+            let mut fb = amiquip::verif::probe::FrameBuffer::new();
+            let mut cur = std::io::Cursor::new(bytes);
+            let mut n = 0usize;
+            let r = fb.read_from(&mut cur, |_f| {
+                n += 1;
+                Ok(())
+            });
+            (n, r.map_err(|e| format!("{:?}", e)))
+        })
+        .unwrap();
+    match h.join() {
+        Ok((n, r)) => {
+            println!("frames handed on: {}, read_from -> {:?}", n, r.map(|_| ()));
+            println!("OK");
+        }
+        Err(_) => {
+            println!("PANIC");
+            std::process::exit(3);
+        }
+    }
 }
 
 pub fn huge_child(size: &str) {
